@@ -25,7 +25,7 @@ def run_vector(vec):
     constructors that must be refused also with the time dimension designated by its NAME instead of its letter"""
     cfg = vec["cfg"]
     problems = []
-    if cfg["op"] == "array_ctor" and cfg["shape"] != [-1]:
+    if cfg["op"] == "array_ctor" and cfg["shape"] not in ([-1], [-2]):
         for dt in (np.float64, np.float32, np.float16, np.int64, np.int32):
             problems += [p.replace("{C13} ", f"{{C13}} [values dtype {np.dtype(dt).name}] ", 1) for p in run_one(vec, dtype=dt)]
             if problems:
@@ -50,6 +50,8 @@ def run_one(vec, dtype=np.float64, tl_by_name=False):
             shape = cfg["shape"]
             if shape == [-1]:
                 v = 3.0
+            elif shape == [-2]:
+                v = FlodymArray(dims=U.dimset(ds), values=np.full(tuple(len(U.labels(l)) for l in ds), 4.0))
             else:
                 v = np.arange(1, (int(np.prod(shape)) if shape else 1) + 1, dtype=float).reshape(shape).astype(dtype)  # stays an ndarray for shape ()
                 assert isinstance(v, np.ndarray)
@@ -88,6 +90,36 @@ def run_one(vec, dtype=np.float64, tl_by_name=False):
             lm = flodym.FixedLifetime(dims=U.dimset(ds), time_letter="t", mean=p)
             if tuple(np.shape(lm.mean)) != tuple(len(U.labels(l)) for l in ds):
                 problems.append(f"{{C13}} lifetime parameter stored with shape {np.shape(lm.mean)}")
+        elif op == "lifetime_foreign":
+            from .universe import Dimension, DimensionSet
+            l = cfg["tl"]
+            for extra_items in (1, -1):
+                n = len(U.labels(l)) + extra_items
+                if n < 1:
+                    continue
+                foreign = Dimension(name=U.name(l), letter=l, items=[U.item(l, 1)] + [f"o{i}" for i in range(n - 1)],
+                                    dtype=(int if l == "t" else None)) if l != "t" else \
+                    Dimension(name=U.name(l), letter=l, items=[1900 + i for i in range(n)], dtype=int)
+                pdims = DimensionSet(dim_list=[foreign if m == l else U.dim(m) for m in cfg["b"]])
+                p = FlodymArray(dims=pdims, values=np.full(tuple(d.len for d in pdims), 2.0))
+                try:
+                    if via == "ctor":
+                        lm = flodym.FixedLifetime(dims=U.dimset(ds), time_letter="t", mean=p)
+                    else:
+                        lm = flodym.FixedLifetime(dims=U.dimset(ds), time_letter="t", mean=3.0)
+                        before = np.array(lm.mean, copy=True)
+                        try:
+                            lm.set_prms(mean=p)
+                        finally:
+                            if tuple(np.shape(lm.mean)) != tuple(len(U.labels(m)) for m in ds) or not np.array_equal(np.asarray(lm.mean, dtype=float), before):
+                                problems.append(f"{{C13}} a refused set_prms left the lifetime parameter with shape {np.shape(lm.mean)} / other values")
+                    if tuple(np.shape(lm.mean)) != tuple(len(U.labels(m)) for m in ds):
+                        problems.append(f"{{C13}} lifetime parameter stored with shape {np.shape(lm.mean)} instead of the model's {tuple(len(U.labels(m)) for m in ds)}")
+                except Exception as e:
+                    raised = e
+                else:
+                    raised = None
+                    break
         elif op == "assign_foreign":
             from .universe import Dimension, DimensionSet
             l = cfg["tl"]
